@@ -255,8 +255,27 @@ def deck_bytes(src):
         path = os.path.join(env.REPO, rel) if rel else os.path.join(os.path.dirname(pptx.__file__), "templates", "default.pptx")
         with open(path, "rb") as fh:
             b = fh.read()
-        _decks[src] = strip_core(b) if how == "stripped" else b
+        _decks[src] = strip_core(b) if how == "stripped" else (reprefix_core(b) if how == "reprefixed" else b)
     return _decks[src]
+
+
+def reprefix_core(data):
+    """The deck with the namespaces of its core-properties part bound to other prefixes (xmlns:dct, xmlns:d, xmlns:c: what another
+    producer's serializer may choose; the same document)."""
+    import zipfile
+
+    zin = zipfile.ZipFile(io.BytesIO(data))
+    out = io.BytesIO()
+    with zipfile.ZipFile(out, "w", zipfile.ZIP_DEFLATED) as zf:
+        for n in zin.namelist():
+            blob = zin.read(n)
+            if n == "docProps/core.xml":
+                t = blob.decode("utf-8")
+                for old_, new_ in (("dcterms", "dct"), ("dc", "d"), ("cp", "c")):
+                    t = t.replace("xmlns:%s=" % old_, "xmlns:%s=" % new_).replace("<%s:" % old_, "<%s:" % new_).replace("</%s:" % old_, "</%s:" % new_).replace('"%s:W3CDTF"' % old_, '"%s:W3CDTF"' % new_)
+                blob = t.encode("utf-8")
+            zf.writestr(n, blob)
+    return out.getvalue()
 
 
 def corpus_srcs():
@@ -676,7 +695,7 @@ def run_unit(unit, tier, seed, acc):
     elif kind == "history":
         corp = corpus_srcs()
         for i in range(unit["n"]):
-            src = ["default", "stripped", "default", "stripped", "corpus:" + r.choice(corp), "stripped:" + r.choice(corp)][i % 6]
+            src = ["default", "stripped", "reprefixed", "stripped", "corpus:" + r.choice(corp), "stripped:" + r.choice(corp), "default", "reprefixed:" + r.choice(corp)][i % 8]
             steps = [gen_step(r, r.choice(NAMES)) for _ in range(r.randint(4, 24))]
             for _ in range(r.randint(0, 2)):
                 steps.insert(r.randint(1, len(steps)), ["cycle"])
